@@ -17,6 +17,7 @@ package validate
 import (
 	"context"
 	"fmt"
+	"math"
 	"reflect"
 	"strings"
 	"unicode/utf8"
@@ -333,11 +334,18 @@ func MaximumNativeType(path, in string, val interface{}, maximum float64, exclus
 	switch kind { //nolint:exhaustive
 	case reflect.Int, reflect.Int8, reflect.Int16, reflect.Int32, reflect.Int64:
 		value := valueHelp.asInt64(val)
+		if !floatIsInt64(maximum) {
+			// a fractional or out-of-range bound cannot be carried by an int64: compare as numbers
+			return Maximum(path, in, float64(value), maximum, exclusive)
+		}
 		return MaximumInt(path, in, value, int64(maximum), exclusive)
 	case reflect.Uint, reflect.Uint8, reflect.Uint16, reflect.Uint32, reflect.Uint64:
 		value := valueHelp.asUint64(val)
 		if maximum < 0 {
 			return errors.ExceedsMaximum(path, in, maximum, exclusive, val)
+		}
+		if !floatIsUint64(maximum) {
+			return Maximum(path, in, float64(value), maximum, exclusive)
 		}
 		return MaximumUint(path, in, value, uint64(maximum), exclusive)
 	case reflect.Float32, reflect.Float64:
@@ -363,11 +371,17 @@ func MinimumNativeType(path, in string, val interface{}, minimum float64, exclus
 	switch kind { //nolint:exhaustive
 	case reflect.Int, reflect.Int8, reflect.Int16, reflect.Int32, reflect.Int64:
 		value := valueHelp.asInt64(val)
+		if !floatIsInt64(minimum) {
+			return Minimum(path, in, float64(value), minimum, exclusive)
+		}
 		return MinimumInt(path, in, value, int64(minimum), exclusive)
 	case reflect.Uint, reflect.Uint8, reflect.Uint16, reflect.Uint32, reflect.Uint64:
 		value := valueHelp.asUint64(val)
 		if minimum < 0 {
 			return nil
+		}
+		if !floatIsUint64(minimum) {
+			return Minimum(path, in, float64(value), minimum, exclusive)
 		}
 		return MinimumUint(path, in, value, uint64(minimum), exclusive)
 	case reflect.Float32, reflect.Float64:
@@ -393,9 +407,15 @@ func MultipleOfNativeType(path, in string, val interface{}, multipleOf float64) 
 	switch kind { //nolint:exhaustive
 	case reflect.Int, reflect.Int8, reflect.Int16, reflect.Int32, reflect.Int64:
 		value := valueHelp.asInt64(val)
+		if !floatIsInt64(multipleOf) {
+			return MultipleOf(path, in, float64(value), multipleOf)
+		}
 		return MultipleOfInt(path, in, value, int64(multipleOf))
 	case reflect.Uint, reflect.Uint8, reflect.Uint16, reflect.Uint32, reflect.Uint64:
 		value := valueHelp.asUint64(val)
+		if !floatIsUint64(multipleOf) {
+			return MultipleOf(path, in, float64(value), multipleOf)
+		}
 		return MultipleOfUint(path, in, value, uint64(multipleOf))
 	case reflect.Float32, reflect.Float64:
 		fallthrough
@@ -403,6 +423,17 @@ func MultipleOfNativeType(path, in string, val interface{}, multipleOf float64) 
 		value := valueHelp.asFloat64(val)
 		return MultipleOf(path, in, value, multipleOf)
 	}
+}
+
+// floatIsInt64 tells whether a constraint held in a float64 is an integer that an int64 can carry.
+// When it is not, converting it with int64() would silently change the constraint (3.5 becomes 3).
+func floatIsInt64(f float64) bool {
+	return f == math.Trunc(f) && f >= -(1<<63) && f < 1<<63
+}
+
+// floatIsUint64 tells whether a constraint held in a float64 is an integer that a uint64 can carry.
+func floatIsUint64(f float64) bool {
+	return f == math.Trunc(f) && f >= 0 && f < 1<<64
 }
 
 // IsValueValidAgainstRange checks that a numeric value is compatible with
